@@ -32,7 +32,13 @@ def load_contracts(prop):
 
     for m in PROP_MODULES.get(prop, []):
         importlib.import_module(m)
-    return [c for c in unit.REGISTRY.values() if prop in c.props and c.self_check]
+    out = [c for c in unit.REGISTRY.values() if prop in c.props and c.self_check]
+    from contracts import index
+
+    flt = index.PROPS.get(prop, {}).get("unit_filter")
+    if flt:
+        out = [c for c in out if c.name in flt]
+    return out
 
 
 def _run_one(args):
@@ -125,7 +131,7 @@ def load_known(prop):
 
 def match_known(known, unit_name, vc_name, path):
     for f in known:
-        if f.get("obligation") == vc_name and f.get("unit", unit_name) == unit_name:
+        if f.get("obligation") == vc_name and f.get("unit", unit_name) in (unit_name, None):
             pat = f.get("path_contains")
             if pat is None or all(p in path for p in ([pat] if isinstance(pat, str) else pat)):
                 return f
